@@ -29,6 +29,7 @@ import (
 	"github.com/IrineSistiana/mosproxy/internal/dnsmsg"
 	"github.com/IrineSistiana/mosproxy/internal/pool"
 	"github.com/IrineSistiana/mosproxy/internal/upstream/transport"
+	"github.com/IrineSistiana/mosproxy/internal/verifhook"
 	"github.com/IrineSistiana/mosproxy/verif/internal/gen"
 	"github.com/IrineSistiana/mosproxy/verif/internal/scripted"
 )
@@ -688,7 +689,16 @@ func c05Exhaust(c *Ctx, framing string) {
 	if framing == "udp" {
 		p.Conc = 24 // paced: loopback UDP drops under bursts
 	}
-	srv, tr, d, wl, err := c05Setup(framing, p.MaxConc, nil)
+	const boundary = 65536 - 8
+	// instant echo, except for the burst at the ID boundary: those replies are held for 30 ms so that
+	// the exchanges owning the last wire IDs are still outstanding while the others look for an ID
+	srv, tr, d, wl, err := c05Setup(framing, p.MaxConc, func(q *scripted.Query) scripted.Action {
+		var i int
+		if _, e := fmt.Sscanf(q.Name, "x%d.", &i); e == nil && i >= boundary && i < boundary+64 {
+			return scripted.Action{Tag: "echo-held", Delay: 30 * time.Millisecond}
+		}
+		return scripted.Action{Tag: "echo"}
+	})
 	if err != nil {
 		c.Inconclusive("C05 exhaustion setup: " + err.Error())
 		return
@@ -705,7 +715,31 @@ func c05Exhaust(c *Ctx, framing string) {
 		}
 	}
 	start := time.Now()
-	for i := 0; i < nSeq; i++ {
+	// sequential up to 8 IDs before the first connection runs out of wire IDs, then a burst of 64
+	// callers released at once (they race for the last IDs: the losers must move to a new
+	// connection, never get a wrapped ID), then the rest of the sequential phase
+	for i := 0; i < boundary; i++ {
+		c05Do(tr, exs[i])
+	}
+	{
+		var bw sync.WaitGroup
+		gate := make(chan struct{})
+		for i := boundary; i < boundary+64; i++ {
+			bw.Add(1)
+			go func(i int) {
+				defer bw.Done()
+				<-gate
+				c05Do(tr, exs[i])
+			}(i)
+		}
+		// a caller may be descheduled between being handed the pooled connection and taking its wire
+		// id: make that likely during the burst (hook H6)
+		verifhook.Set("pipeline.exchange", "sleep(2ms,60.0%)")
+		close(gate)
+		bw.Wait()
+		verifhook.Set("pipeline.exchange", "off")
+	}
+	for i := boundary + 64; i < nSeq; i++ {
 		c05Do(tr, exs[i])
 	}
 	seqDials := d.Dials()
